@@ -160,7 +160,7 @@ def public_open(b, root, cached, suffix=''):
                                serialized=b.get('serialized', True), protocol=b.get('protocol'))
     if k == 'dir':
         kw = {'serialized': b.get('serialized', True), 'protocol': b.get('protocol')}
-        for o in ('compression', 'memmode', 'fast'):
+        for o in ('compression', 'memmode', 'fast', 'permissions'):
             if b.get(o):
                 kw[o] = b[o]
         return KA.dir_archive(os.path.join(root, 'archdir%s' % suffix), cached=cached, **kw)
